@@ -1200,10 +1200,9 @@ def _table_like(node: ast.AST) -> bool:
         if isinstance(n, ast.Call):
             if not (isinstance(n.func, ast.Name) and n.func.id in ("frozenset", "tuple", "set") and len(n.args) <= 1 and not n.keywords):
                 return False
-        elif not isinstance(n, (ast.Dict, ast.List, ast.Set, ast.Tuple, ast.Constant, ast.Name, ast.Load, ast.UnaryOp, ast.USub)):
+        elif not isinstance(n, (ast.Dict, ast.List, ast.Set, ast.Tuple, ast.Constant, ast.Name, ast.Attribute, ast.Load, ast.UnaryOp, ast.USub)):
             return False
-        if isinstance(n, ast.Name) and n.id not in ("frozenset", "tuple", "set"):
-            return False
+    # (names are allowed as entries: a table of classes / functions of the module)
     return n_nodes <= 64
 
 
